@@ -100,6 +100,12 @@ func genRawPlan(r *rand.Rand) *ProxyPlan {
 	hostile := r.IntN(3) == 0
 	if hostile {
 		p.Res[0].Extra = [][2]string{{"X-Sim-Raw", itoa(r.IntN(len(hostileResponses)))}}
+		if r.IntN(4) == 0 {
+			// a proper 416 (with a body) for Range requests, hostile bytes for the retry without Range
+			p.Res[0].Extra[0][0] = "X-Sim-Raw-NoRange"
+			p.Res[0].RangeMode = "416"
+			p.Retry416 = true
+		}
 	}
 	var reqs []PReq
 	for k := 0; k < 6; k++ {
@@ -312,8 +318,9 @@ var configDocs = []string{
 	`{"cache":{"max_cache_size":"%s"}}`, `{"logging":{"max_size":"%s"}}`, `{"cache":{"cleanup_interval":"%s"}}`, `{"proxy":{"cache_policy":{"default_max_age":"%s"}}}`,
 	`{"cache":{"lock_shards":%s}}`, `{"cache":{"memory":{"memory_budget_percent":%s}}}`, `{"logging":{"level":"%s"}}`, `{"cache":{"type":"%s"}}`,
 	`{"cache":%s}`, `{"proxy":%s}`, `%s`, `{"cache":{"file":{"dir":%s}}}`, `{"logging":{"max_backups":%s}}`,
+	`{"proxy":{"listen":%s}}`, `{"cache":{"lock_shards":%s}}`, `{"logging":{"level":%s}}`, `{"":%s}`, `{"cache":{"":%s}}`,
 }
-var configVals = []string{"", "0", "-1", "1", "10G", "1.5G", "abc", "99999999999999999999", "9223372036854775807B", "9007199254740993T", "1h", "-1h", "0s", "1e3s", "null", "true", "[]", "{}", `"x"`, "1.5", "DEBUG", "debug", "INFO+2", "file", "memory", "disk", "1ns", "2562048h", "99999999999h"}
+var configVals = []string{`{"":1}`, `{"":{"":1}}`, `{"value":1}`, `{"Value":1}`, "", "0", "-1", "1", "10G", "1.5G", "abc", "99999999999999999999", "9223372036854775807B", "9007199254740993T", "1h", "-1h", "0s", "1e3s", "null", "true", "[]", "{}", `"x"`, "1.5", "DEBUG", "debug", "INFO+2", "file", "memory", "disk", "1ns", "2562048h", "99999999999h"}
 
 func genParserPlan(r *rand.Rand, tier string) *ParserPlan {
 	idx := int(currentSeed & 0xffffffff)
